@@ -218,6 +218,20 @@ def _norm(c):
         c = _QFLD.sub(lambda m: "'" + C.GENERIC_OF[m.group(1)] + "'", c)
         return c
     if isinstance(c, list):
+        if len(c) == 2 and isinstance(c[0], str) and isinstance(c[1], str):
+            # a scalar: the number, not the Python type carrying it
+            try:
+                if c[0] in ("float", "SimFloat"):
+                    return ["num", float.fromhex(c[1]).hex() if c[1] != "nan" else "nan"]
+                if c[0] == "int":
+                    return ["num", float(int(c[1])).hex()]
+                if c[0] in ("np.float64", "np.float32", "np.int64", "np.int32"):
+                    import numpy as _np
+
+                    v = _np.frombuffer(bytes.fromhex(c[1]), dtype=c[0][3:])[0]
+                    return ["num", "nan" if v != v else float(v).hex()]
+            except Exception:
+                pass
         return [_norm(x) for x in c]
     if isinstance(c, tuple):
         return tuple(_norm(x) for x in c)
